@@ -35,6 +35,10 @@ def cases(tier, seed):
                 out.append(dict(kind="accuracy-float", dtype=dt, act=a, w=w, K=1))
                 if tier == "thorough":
                     out.append(dict(kind="accuracy-float", dtype=dt, act=a, w=w, K=2))
+                for K in (4, 16) if tier == "quick" else (3, 4, 16, 64):
+                    if dt == "bfloat16" and a == "float" and w == "qint8" and K % 4 == 0:
+                        continue  # routed to torch._weight_int8pack_mm, which crashes in this torch build (known finding): never run in-process
+                    out.append(dict(kind="accuracy-cut", dtype=dt, act=a, w=w, K=K))
     for dt in ("float16", "bfloat16"):
         for a in ("float", "qint8", "qfloat8_e4m3fn"):
             for w in ("qint8", "qfloat8_e4m3fn"):
@@ -195,6 +199,48 @@ def run_case(case, res):
             res.query("accuracy-float-route", "RERR", v, secs, sub=f"K={K} side{gi}")
             if v == "sat":
                 res.candidate("accuracy", "RERR", dict(kind="accuracy", dtype=case["dtype"], a=api.enc_tensor(api.tensor_from_values(api.real_model_values(r, mdl, A, torch.float32), (1, K), torch.float32)), a_dtype=str(a.dtype), w=api.enc_tensor(api.tensor_from_values(api.real_model_values(r, mdl, W, torch.float32), (1, K), torch.float32)), w_dtype=str(w.dtype), sw=api.enc_tensor(api.tensor_from_values(api.real_model_values(r, mdl, SW, dt), tuple(sw.shape), dt)), sa=api.enc_tensor(api.tensor_from_values(api.real_model_values(r, mdl, SA, dt), (), dt)) if sa is not None else None, bias=None))
+        return
+
+    if case["kind"] == "accuracy-cut":
+        # any K: the float contraction node is cut to a variable N constrained by the accumulation-error model of the kernel
+        # (|N - R| <= gamma_K * M with R = sum a_k w_k, M = sum |a_k w_k|, any summation order); what quanto adds on top - the
+        # scale product, the scaling and the casts - is then decided for all N, R, M and scales
+        K = case["K"]
+        a, sa = _act(case["act"], (1, K), dt)
+        w, sw = _weight(case["w"], 1, K, dt)
+        with Session(res) as m:
+            A, W, SW = m.symbolic(a, "a"), m.symbolic(w, "w"), m.symbolic(sw, "sw")
+            scales = sw
+            if sa is not None:
+                SA = m.symbolic(sa, "sa")
+                scales = sa * sw
+            O = m.read(torch.ops.quanto.qbytes_mm(a, w, scales)).reshape(-1)[0]
+        ctx = m.ctx
+        dots = api.find_nodes([O], lambda t: t.op == "dot")
+        if len(dots) != 1:
+            res.query("accuracy-any-K", "RERR", "unknown", 0.0, note=f"{len(dots)} contraction nodes")
+            return
+        dnode = dots[0]
+        (Oc,), cmap, _ = api.cut(ctx, [O], [dnode], "N")
+        r = rerr.Rerr(ctx)
+        o, nvar = r.tr(Oc), r.tr(cmap[dnode.uid])
+        R, M = z3.Real("R"), z3.Real("M")
+        mmf = tm.FMT[dnode.dt] if dnode.dt in tm.FLOATS else None
+        gamma = Fraction(0) if mmf is None else Fraction(K * 101, 100 * 2 ** mmf["p"])
+        s = r.tr(SW.reshape(-1)[0]) * (r.tr(SA.reshape(-1)[0]) if sa is not None else 1)
+        pre = r.cons + [M >= 0, R <= M, -R <= M, nvar - R <= rv(gamma) * M, R - nvar <= rv(gamma) * M, r.tr(SW.reshape(-1)[0]) > 0] + ([r.tr(SA.reshape(-1)[0]) > 0] if sa is not None else [])
+        if mmf is None:
+            pre += [M <= 2**24]
+        ref = R * s
+        v, secs, _ = api.solve(pre + [M > 1, s > rv(Fraction(1, 100))], 30)
+        res.query("vacuity-accuracy-any-K", "RERR", "unsat" if v == "sat" else "unknown", secs, symbolic=False)
+        v, secs, _ = api.solve(pre + [o - ref > rv(Fraction(1, 2)) * (rv(gamma) + rv(u)) * M * s + rv(8 * eta) * (1 + M + M * s)], 60)
+        res.query("sanity-half-bound-is-violable", "RERR", "unsat" if v == "sat" else "unknown", secs, symbolic=False, note="a bound half as large must be refutable, else the query is vacuous")
+        for gi, g in enumerate((o - ref, ref - o)):
+            v, secs, mdl = api.solve(pre + [g > (rv(gamma) + rv(8 * u)) * M * s + rv(8 * eta) * (1 + M + M * s)], 90)
+            res.query("accuracy-any-K", "RERR", v, secs, sub=f"K={K} contraction dtype {api.dtn(dnode.dt)} side{gi}")
+            if v == "sat":
+                res.candidate("accuracy", "RERR", dict(kind="accuracy", dtype=case["dtype"], a=api.enc_tensor(a.float() if a.dtype.is_floating_point and a.element_size() == 1 else a), a_dtype=str(a.dtype), w=api.enc_tensor(w.float() if w.dtype.is_floating_point else w), w_dtype=str(w.dtype), sw=api.enc_tensor(sw), sa=api.enc_tensor(sa) if sa is not None else None, bias=None), note="abstract model over the cut contraction; seed as witness")
         return
 
     if case["kind"] == "finite":
